@@ -1,6 +1,6 @@
 SPECIFICATION TSpec
 CONSTANTS
-  NBlocks = 2
+  Bud <- BudTrace
   Quanta = 5
   MaxPc = 1
   CFault = "none"
